@@ -60,7 +60,11 @@ fn generate(rng: &mut Rng) -> C10Sc {
     let first = ConnScenario {
         seed: rng.next_u64(),
         cfg: ConnCfg { secret, expiry: Some(expiry), max_frame: None, client_addr: gen_addr(rng) },
-        wall: Wall { base_s: 1_800_000_000 + rng.below(1_000_000), jumps: vec![] },
+        wall: Wall {
+            base_s: 1_800_000_000 + rng.below(1_000_000),
+            // the wall clock may step (NTP) while the first connection is being routed
+            jumps: if rng.chance(1, 4) { vec![(secs(rng.range(0, 30)), *rng.pick(&[-7200i64, -1, 1, 3600]))] } else { vec![] },
+        },
         services,
         client,
         wplan: vec![],
@@ -271,6 +275,9 @@ impl Check for C10 {
         let mut h = crate::rng::Fnv(rep.trace_hash);
         h.write_str(&format!("{:?}|{:?}|{}|{}|{}|{}", sc.first.cfg.secret.as_ref().map(|s| s.len()), sc.first.cfg.expiry, sc.gap_s.signum(), sc.gap_s.unsigned_abs().min(100_000) / 1000, sc.present_session, sc.second_port_xor == 0));
         rep.trace_hash = h.0;
+        if !sc.first.wall.jumps.is_empty() {
+            *rep.faults.entry("wall_clock_jump_during_connection".into()).or_insert(0) += 1;
+        }
         if sc.gap_s < 0 {
             *rep.faults.entry("wall_clock_stepped_back".into()).or_insert(0) += 1;
         }
